@@ -390,3 +390,87 @@ Example c10_source_tokens_nonvacuous :
   /\ SrcRun.src_tokens_rejects [1; 3; 2]%nat [1; 2]%nat None = true
   /\ SrcRun.src_tokens_2d_empty 2 3 = true.
 Proof. split; [vm_compute; reflexivity|]. split; vm_compute; reflexivity. Qed.
+
+(* ================================================================================================== *)
+(* SECOND SOURCE TIE: the Python text of `slice_spect_data` (whole body), regenerated by py2coq on    *)
+(*  every run (PV.Gen.C10BSrc.slice_body), interpreted by MiniPy.Interp with the torch calls given    *)
+(*  the meaning of MiniTorch.OpsC10 / OpsC10B (SrcRunB.extB).  Policy 'fixed' is tied for all inputs; *)
+(*  the leading statements (empty input, lobe / window tests) for every policy.  See                  *)
+(*  notes/C10_tie_report.md, section "Second tie".                                                    *)
+(* ================================================================================================== *)
+From PV Require C10.SrcRunB C10.TieBPrefix C10.TieBFixedTop Gen.C10BSrc.
+From PV Require MiniTorch.OpsC10 MiniTorch.OpsC10B MiniTorch.ValueC10.
+
+(* policy 'fixed': for every input tensor with at least two dimensions (any trailing sizes, any data), in_lens omitted
+   or N lengths, every window type, validity setting, lobe size >= 0, T >= 1: the interpreted source returns exactly the
+   (M, 2) windows tensor and the (M,) sources tensor of Model.slice_fixed (d3 repaired = /repo today) *)
+Theorem c10_source_slice_fixed_is_model : forall N T rest data ol in_lens w vo lobe out,
+  T <> 0%nat -> 0 <= lobe ->
+  slice_fixed repaired N (Z.of_nat T) in_lens w vo lobe = Some out ->
+  exists st, Interp.run SrcRunB.extB C10BSrc.slice_body
+               (SrcRunB.slice_vars_raw (OpsC10.mkIT (N :: T :: rest) data) (option_map SrcRun.vec_tensor in_lens) ol
+                                       TieBFixedTop.fixed_name (SrcRunB.wt_name w) vo lobe)
+             = Interp.Ok (SrcRunB.slices_value out) st.
+Proof. exact TieBFixedTop.fixed_tie. Qed.
+Print Assumptions c10_source_slice_fixed_is_model.
+
+(* composed with c10_fixed_windows_spec: purely about the interpreted source - it returns the unique list of windows
+   the declarative spec of the fixed policy prescribes (arithmetic progression of starts, window size, kept iff the
+   middle index lies before the sequence's length), in order, labelled by source *)
+Theorem c10_source_slice_fixed_windows : forall N T in_lens ol w vo lobe,
+  (1 <= T)%nat -> 0 <= lobe -> lens_ok N (Z.of_nat T) in_lens ->
+  exists out st, Interp.run SrcRunB.extB C10BSrc.slice_body (SrcRunB.slice_vars T (InFixed N) in_lens ol w vo lobe)
+                   = Interp.Ok (SrcRunB.slices_value out) st
+                 /\ fixed_spec N (len_of (Z.of_nat T) in_lens) w vo lobe out.
+Proof. exact TieBFixedTop.source_fixed_windows_spec. Qed.
+Print Assumptions c10_source_slice_fixed_windows.
+
+(* every policy (also unknown ones), ARBITRARY tensors: sequences of length 0 give an empty (0, 2) and an empty (0,)
+   tensor before any other test (c10_empty_input_no_windows about the source) *)
+Theorem c10_source_slice_empty : forall N rest data il ol policy wt vo lobe,
+  exists st, Interp.run SrcRunB.extB C10BSrc.slice_body
+               (SrcRunB.slice_vars_raw (OpsC10.mkIT (N :: 0%nat :: rest) data) il ol policy wt vo lobe)
+             = Interp.Ok (Syntax.VTuple [ValueC10.enc10 (OpsC10B.empty [0; 2]%nat); ValueC10.enc10 (OpsC10B.empty [0%nat])]) st.
+Proof. exact TieBFixedTop.slice_empty. Qed.
+Print Assumptions c10_source_slice_empty.
+
+(* every policy, arbitrary tensors: a negative lobe size / an unknown window type raises RuntimeError *)
+Theorem c10_source_slice_raises_lobe : forall N T rest data il ol policy wt vo lobe, T <> 0%nat -> lobe < 0 ->
+  exists st, Interp.run SrcRunB.extB C10BSrc.slice_body
+               (SrcRunB.slice_vars_raw (OpsC10.mkIT (N :: T :: rest) data) il ol policy wt vo lobe)
+             = Interp.Exc SrcRun.runtime_error st.
+Proof. exact TieBFixedTop.slice_raises_lobe. Qed.
+Print Assumptions c10_source_slice_raises_lobe.
+
+Theorem c10_source_slice_raises_window : forall N T rest data il ol policy wt vo lobe, T <> 0%nat -> 0 <= lobe ->
+  TieBPrefix.wt_ok wt = false ->
+  exists st, Interp.run SrcRunB.extB C10BSrc.slice_body
+               (SrcRunB.slice_vars_raw (OpsC10.mkIT (N :: T :: rest) data) il ol policy wt vo lobe)
+             = Interp.Exc SrcRun.runtime_error st.
+Proof. exact TieBFixedTop.slice_raises_window. Qed.
+Print Assumptions c10_source_slice_raises_window.
+
+(* non-vacuity: the interpreted source on the docstring's examples (T = 8, lobe 2), an 'ali' and a 'ref' call (executed,
+   not yet tied), a rejected call *)
+Example c10_source_slice_nonvacuous :
+  SrcRunB.src_slice 8 (InFixed 1) None None Symmetric true 2 = Some (Some [((0, 5), 0); ((3, 8), 0)])
+  /\ SrcRunB.src_slice 8 (InFixed 2) (Some [8; 5]) None Causal false 2
+     = Some (Some [((-2, 1), 0); ((1, 4), 0); ((4, 7), 0); ((-2, 1), 1); ((1, 4), 1)])
+  /\ SrcRunB.src_slice 5 (InAli [[1; 1; 2; 3; 3]; [4; 4; 5; 4; 4]]) (Some [5; 4]) None Symmetric true 1
+     = Some (Some [((0, 5), 0); ((0, 4), 1)])
+  /\ SrcRunB.src_slice 2 (InRef [[(1, 0, 3); (2, 3, 5)]; [(1, -1, 3); (2, 1, 2)]]) None None Symmetric true 0
+     = Some (Some [((0, 3), 0); ((3, 5), 0); ((1, 2), 1)])
+  /\ SrcRunB.src_slice 8 (InFixed 2) (Some [8; 5; 1]) None Future false 2 = Some None.
+Proof. repeat split; vm_compute; reflexivity. Qed.
+
+(* policy 'fixed', the raise path of the model: in_lens whose length is not N -> RuntimeError (slice_fixed = None) *)
+From PV Require C10.TieBFixedRaise.
+Theorem c10_source_slice_fixed_raises_in_lens : forall N T rest data ol ls w vo lobe,
+  T <> 0%nat -> 0 <= lobe ->
+  slice_fixed repaired N (Z.of_nat T) (Some ls) w vo lobe = None ->
+  exists st, Interp.run SrcRunB.extB C10BSrc.slice_body
+               (SrcRunB.slice_vars_raw (OpsC10.mkIT (N :: T :: rest) data) (Some (SrcRun.vec_tensor ls)) ol
+                                       TieBFixedTop.fixed_name (SrcRunB.wt_name w) vo lobe)
+             = Interp.Exc SrcRun.runtime_error st.
+Proof. exact TieBFixedRaise.fixed_tie_raises. Qed.
+Print Assumptions c10_source_slice_fixed_raises_in_lens.
